@@ -61,8 +61,8 @@ class FeatureInterval(AbstractFeatureInterval):
         parent_or_seq_chunk_parent: Optional[Parent] = None,
     ):
         self._location = self.initialize_location(interval_starts, interval_ends, strand, parent_or_seq_chunk_parent)
-        self._genomic_starts = interval_starts
-        self._genomic_ends = interval_ends
+        self._genomic_starts = list(interval_starts)
+        self._genomic_ends = list(interval_ends)
         self.start = self.genomic_start = interval_starts[0]
         self.end = self.genomic_end = interval_ends[-1]
         self._strand = strand
@@ -326,7 +326,7 @@ class FeatureInterval(AbstractFeatureInterval):
                 qualifiers[key] = set()
             qualifiers[key].add(val)
         if self.feature_types:
-            qualifiers[BioCantorQualifiers.FEATURE_TYPE.value] = self.feature_types
+            qualifiers[BioCantorQualifiers.FEATURE_TYPE.value] = set(self.feature_types)
         return qualifiers
 
     def to_gff(
@@ -535,7 +535,7 @@ class FeatureIntervalCollection(AbstractFeatureIntervalCollection):
         if not feature_intervals:
             raise InvalidAnnotationError("Must have at least one feature interval.")
 
-        self.feature_intervals = feature_intervals
+        self.feature_intervals = list(feature_intervals)
         self.feature_collection_name = feature_collection_name
         self.feature_collection_id = feature_collection_id
         self.locus_tag = locus_tag
@@ -692,7 +692,7 @@ class FeatureIntervalCollection(AbstractFeatureIntervalCollection):
                 qualifiers[key] = set()
             qualifiers[key].add(val)
         if self.feature_types:
-            qualifiers[BioCantorQualifiers.FEATURE_TYPE.value] = self.feature_types
+            qualifiers[BioCantorQualifiers.FEATURE_TYPE.value] = set(self.feature_types)
         return qualifiers
 
     def query_by_guids(self, id_or_ids: Union[UUID, List[UUID]]) -> Optional["FeatureIntervalCollection"]:
